@@ -258,6 +258,12 @@ def run_property(mod, tier, seed, replay=None):
     broken = []      # broken proof obligations / ties (strings)
     listed, fixed = load_findings(pid)
 
+    # 0. the build that is checked (with --cfg yamaquasi_verif) must be the shipped program plus observers
+    rc, out, dt = sh([sys.executable, os.path.join(ROOT, "vlib", "hook_audit.py")], cwd=ROOT, timeout=120)
+    log.append(f"[hook audit] rc={rc}\n{out[-2000:]}")
+    if rc != 0:
+        broken.append("hook-audit: " + "; ".join(l.strip() for l in out.strip().splitlines()[1:4]))
+
     # 1. translator
     gen_res = regenerate(getattr(mod, "GEN", []), log)
     for g, ok, msg in gen_res:
@@ -323,6 +329,7 @@ def run_property(mod, tier, seed, replay=None):
     dist = {}
     distinct = set()
     samples = []
+    replay_mode = [False]
     o_failures = []     # (profile, case, answer, msg)
     k_failures = []     # (profile, case, impl, model)
 
@@ -400,6 +407,8 @@ def run_property(mod, tier, seed, replay=None):
                         o_failures.append((pr, c, a, msg))
                 if i in mans:
                     m = mans[i]
+                    if m == "?" and replay_mode[0]:
+                        continue            # a request the model does not answer (oracle-only op)
                     if m == "?":
                         stats["model_unknown"] += 1
                         k_failures.append((pr, c, a, m))
@@ -415,8 +424,18 @@ def run_property(mod, tier, seed, replay=None):
     rng = random.Random(seed)
     if harness_ok:
         if replay:
-            lines = [l.strip() for l in open(replay) if l.strip() and not l.startswith("#")]
-            run_cases([Case(l) for l in lines], 600)
+            # a replay file: request lines, each optionally preceded by `#@tag <tag>` (the generator's tag,
+            # e.g. the known factorisation the oracle compares with)
+            rc_cases, tag = [], ""
+            for l in open(replay):
+                l = l.strip()
+                if l.startswith("#@tag "):
+                    tag = l[6:]
+                elif l and not l.startswith("#"):
+                    rc_cases.append(Case(l, tag=tag, timeout=getattr(mod, "TIMEOUT", 60.0)))
+                    tag = ""
+            replay_mode[0] = True
+            run_cases(rc_cases, 600)
         else:
             corpus = os.path.join(ROOT, "corpus", pid)
             corpus_cases = []
@@ -456,9 +475,14 @@ def run_property(mod, tier, seed, replay=None):
         with open(path, "w") as f:
             f.write(f"# property {pid}: implementation answer contradicts the specification\n")
             f.write(f"# profile={pr} answer={a}\n# {msg}\n")
+            if c.tag:
+                f.write(f"#@tag {c.tag}\n")
             f.write(c.line + "\n")
             for pr2, c2, a2, msg2 in new_fail[1:20]:
-                f.write(f"# also: profile={pr2} answer={a2[:100]} {msg2[:200]}\n{c2.line}\n")
+                f.write(f"# also: profile={pr2} answer={a2[:100]} {msg2[:200]}\n")
+                if c2.tag:
+                    f.write(f"#@tag {c2.tag}\n")
+                f.write(c2.line + "\n")
         violation = (path, "")
     elif broken or k_failures:
         path = os.path.join(REPLAY_DIR, pid, f"unproved-{seed}.txt")
